@@ -209,6 +209,9 @@ class _Lagrangian:
         else:
             redY = self.constraints._y_as_series
         redW = signed_weights.abs()
+        if redW.sum() == 0:
+            # every predictor is a best response; avoid 0/0 and all-zero sample weights
+            redW = redW + 1.0
         redW = self.constraints.total_samples * redW / redW.sum()
 
         redY_unique = np.unique(redY)
